@@ -236,5 +236,6 @@ def find_curve(oid_curve):
             return c
     raise UnknownCurveError(
         "I don't know about the curve with oid %s."
-        "I only know about these: %s" % (oid_curve, [c.name for c in curves])
+        "I only know about these: %s"
+        % (der.oid_to_text(oid_curve), [c.name for c in curves])
     )
